@@ -5,6 +5,7 @@ package batchprocessor
 import (
 	"context"
 	"fmt"
+	"net"
 	"sort"
 	"strings"
 	"sync"
@@ -53,10 +54,50 @@ func vVals(vs []string) string {
 	return strings.Join(out, ".")
 }
 
+// vAuth: credentials of an incoming call; they must never show up on an export context
+type vAuth struct{ who string }
+
+func (a vAuth) GetAttribute(string) any     { return a.who }
+func (a vAuth) GetAttributeNames() []string { return []string{"who"} }
+
+// ctxTok describes everything the export context's client.Info carries BEYOND the values of the configured keys:
+// "clean" = nothing (no Auth, no Addr, no other metadata key) - what newShard builds; anything else is a leak of some
+// caller's client info into a batch that mixes many callers.
+func (s *vSink) ctxTok(ctx context.Context) string {
+	info := client.FromContext(ctx)
+	var extra []string
+	if info.Auth != nil {
+		extra = append(extra, "auth")
+	}
+	if info.Addr != nil {
+		extra = append(extra, "addr")
+	}
+	var other []string
+	for k := range info.Metadata.Keys() {
+		configured := false
+		for _, ck := range s.keys {
+			if strings.EqualFold(ck, k) {
+				configured = true
+			}
+		}
+		if !configured {
+			other = append(other, k)
+		}
+	}
+	sort.Strings(other)
+	if len(other) > 0 {
+		extra = append(extra, "other:"+strings.Join(other, ","))
+	}
+	if len(extra) == 0 {
+		return "clean"
+	}
+	return strings.Join(extra, "+")
+}
+
 func (s *vSink) add(ctx context.Context, dump string) {
 	s.mu.Lock()
 	defer s.mu.Unlock()
-	s.lines = append(s.lines, fmt.Sprintf("obs emit t=%d k=%s | %s", time.Since(s.start).Microseconds(), s.key(ctx), dump))
+	s.lines = append(s.lines, fmt.Sprintf("obs emit t=%d k=%s ctx=%s | %s", time.Since(s.start).Microseconds(), s.key(ctx), s.ctxTok(ctx), dump))
 }
 
 func (s *vSink) Capabilities() consumer.Capabilities { return consumer.Capabilities{} }
@@ -193,8 +234,16 @@ func vRunProc(t *testing.T, kind string) {
 			out.Linef("obs done")
 			groups := map[string]bool{}
 			steps := 1 + rnd.IntN(10)
+			// burst mode: several Consume calls and then Shutdown at once, WITHOUT waiting for the shard goroutines: items are
+			// still queued in newItem when shutdown begins (the DONE: drain loop and the single final send). No virtual
+			// time passes, so the outcome is deterministic: label "enqueue" = accepted / refused now, processed at shutdown.
+			burst := c%7 == 3
+			if burst {
+				steps = 2 + rnd.IntN(7)
+				out.Linef("stat burst_shutdown_with_queued_items 1")
+			}
 			for s := 0; s < steps; s++ {
-				if rnd.IntN(3) == 0 {
+				if !burst && rnd.IntN(3) == 0 {
 					dt := 1000 * (1 + rnd.IntN(120))
 					out.Linef("op advance us=%d", dt)
 					time.Sleep(time.Duration(dt) * time.Microsecond)
@@ -203,24 +252,32 @@ func vRunProc(t *testing.T, kind string) {
 					out.Linef("obs done")
 					continue
 				}
-				// client metadata: mixed-case header names, absent / empty / single / multi values
+				// client metadata: mixed-case header names, absent / empty / single / multi values (also reordered and
+				// near-colliding ones: [v2,v1] vs [v1,v2], v12 vs [v1,v2], v1 vs v10)
 				md := map[string][]string{}
 				var parts []string
 				for _, k := range sink.keys {
 					var vs []string
-					switch rnd.IntN(6) {
+					switch rnd.IntN(9) {
 					case 0: // absent
 					case 1:
 						vs = []string{""}
 					case 2:
 						vs = []string{"v1", "v2"}
+					case 3:
+						vs = []string{"v2", "v1"}
+					case 4:
+						vs = []string{[]string{"v12", "v10"}[rnd.IntN(2)]}
 					default:
 						vs = []string{fmt.Sprintf("v%d", 1+rnd.IntN(3))}
 					}
 					if vs != nil {
 						name := k
-						if rnd.IntN(2) == 0 {
+						switch rnd.IntN(3) {
+						case 0:
 							name = strings.ToUpper(k[:1]) + k[1:]
+						case 1:
+							name = strings.ToUpper(k)
 						}
 						md[name] = vs
 					}
@@ -230,23 +287,44 @@ func vRunProc(t *testing.T, kind string) {
 				if nkeys > 0 {
 					key = strings.Join(parts, "/")
 				}
-				ctx := client.NewContext(context.Background(), client.Info{Metadata: client.NewMetadata(md)})
+				// everything else a caller's client.Info can carry: other headers, credentials, peer address
+				info := client.Info{}
+				if rnd.IntN(2) == 0 {
+					md["x-other"] = []string{fmt.Sprintf("o%d", s)}
+				}
+				if rnd.IntN(3) == 0 {
+					md["Authorization"] = []string{"secret"}
+				}
+				if rnd.IntN(2) == 0 {
+					info.Auth = vAuth{who: fmt.Sprintf("caller%d", s)}
+				}
+				if rnd.IntN(2) == 0 {
+					info.Addr = &net.IPAddr{IP: net.IPv4(10, 0, 0, byte(1+s))}
+				}
+				info.Metadata = client.NewMetadata(md)
+				ctx := client.NewContext(context.Background(), info)
+				opName := "arrive"
+				if burst {
+					opName = "enqueue"
+				}
 				var err error
 				if kind == "logs" {
 					ld := g.Logs()
-					out.Linef("op arrive k=%s | %s", key, vDumpLogs(ld))
+					out.Linef("op %s k=%s | %s", opName, key, vDumpLogs(ld))
 					err = consumeLogs(ctx, ld)
 				} else if kind == "traces" {
 					td := g.Traces()
-					out.Linef("op arrive k=%s | %s", key, vDumpTraces(td))
+					out.Linef("op %s k=%s | %s", opName, key, vDumpTraces(td))
 					err = consumeTraces(ctx, td)
 				} else {
 					m := g.Metrics()
-					out.Linef("op arrive k=%s | %s", key, vDumpMetrics(m))
+					out.Linef("op %s k=%s | %s", opName, key, vDumpMetrics(m))
 					err = consumeMetrics(ctx, m)
 				}
-				synctest.Wait()
-				sink.flush(out)
+				if !burst {
+					synctest.Wait()
+					sink.flush(out)
+				}
 				if err != nil {
 					out.Linef("obs err toomany")
 					out.Linef("stat refused 1")
